@@ -227,7 +227,7 @@ PROPS["C04"] = dict(
                  "histories that convert to watching-only import no secret taproot scripts; deletePrivateKeys has no adtTaprootScript case (observation recorded by the plain unit)",
                  "ciphertexts-gone-after-conversion is a doc-comment-level claim (ConvertToWatchingOnly/deletePrivateKeys), asserted only for keys, imported keys, P2SH and secret P2WSH scripts",
                  "crash images are covered by the page-superset argument (DESIGN C04 L); wallet-level unit uses an idle chain backend and sets the birthday block itself"],
-    units=[dict(name="disk", run="^TestC04NoSecretOnDisk$", quick=600, thorough=3000, shards_quick=2, shards_thorough=16, timeout=1500),
+    units=[dict(name="disk", run="^TestC04NoSecretOnDisk$", quick=600, thorough=2000, shards_quick=2, shards_thorough=16, timeout=1500),
            dict(name="wallet", run="^TestC04WalletLevel$", quick=300, thorough=1500, shards_quick=2, shards_thorough=16, timeout=1500),
            dict(name="observe", kind="plain", run="^TestC04Observe", quick=None, thorough=None)])
 PROPS["C10"] = dict(
